@@ -1,4 +1,5 @@
 """C08 -- Coxeter representations (T1, DU, U1)."""
+from ..rules import dtype_rules as DT
 from ..rules import dtype_rules as D
 from ..rules import rep_rules as R
 from ..rules import cache_rules as CA
@@ -30,6 +31,8 @@ def run(ctx):
         "hyperbolic_rep", "automaton", "standard_subgroup"])
     ctx.do(SI.rule_pa1)
     ctx.do(SI.rule_inf1)
+    ctx.do(SI.rule_eigh1)
+    ctx.do(DT.rule_lk2, ["geometry_tools/coxeter.py"])
     ctx.do(SI.rule_cm1)
     ctx.do(u1, ENTRIES, min_functions=15)
     ctx.r.assume("involutions, braid relations, form preservation and "
